@@ -785,6 +785,10 @@ set_zlib_error(kdump_ctx_t *ctx, const char *what,
 	if (err == Z_ERRNO)
 		return set_error(ctx, KDUMP_ERR_SYSTEM, "%s", what);
 
+	if (err == Z_MEM_ERROR)
+		return set_error(ctx, KDUMP_ERR_SYSTEM,
+				 "%s: %s", what, "Out of memory");
+
 	if (!zstream->msg)
 		return set_error(ctx, KDUMP_ERR_CORRUPT,
 				 "%s: error %d", what, err);
